@@ -68,6 +68,19 @@ def _runs(model, name, mk, opaque=None, flags=None):
     return H.run_function(model, H.registry_func(model, name), mk, opaque=opaque, flags=flags)
 
 
+ISO_ORDER = (('YEAR', 'year'), ('MONTH', 'month'), ('DAY', 'day'), ('HOUR', 'hour'), ('MINUTE', 'minute'), ('SECOND', 'second'))
+ISO_TABLE = (
+    ('2020-10-12', (2020, 10, 12, 0, 0, 0)),
+    ('2020-10-12T10:04:11', (2020, 10, 12, 10, 4, 11)),
+    ('2020-10-12 10:04:11', (2020, 10, 12, 10, 4, 11)),
+    ('1999-12-31T23:59', (1999, 12, 31, 23, 59, 0)),
+    ('1999-12-31T23', (1999, 12, 31, 23, 0, 0)),             # reduced precision
+    ('2024-02-29T070809', (2024, 2, 29, 7, 8, 9)),           # basic format time
+    ('2024-02-29T07:08:09.250', (2024, 2, 29, 7, 8, 9)),     # fraction of a second
+    ('2001-01-02T03:04:05Z', (2001, 1, 2, 3, 4, 5)),
+)
+
+
 def _accessors(model, res, opaque):
     comp = {'YEAR': 'year', 'MONTH': 'month', 'DAY': 'day', 'HOUR': 'hour', 'MINUTE': 'minute', 'SECOND': 'second'}
     for name, attr in sorted(comp.items()):
@@ -100,6 +113,44 @@ def _accessors(model, res, opaque):
                 res.violation('R1', 'function:%s:text-component' % name, m.where(f),
                               '%s(text) must be the .%s of the parsed text; got %r' % (name, attr, v), func=f.name)
         res.ob('R1', name, 'a text trace exists', n >= 1)
+    # constant ISO 8601 texts: either handed to the reference text parser, or - a hand-written fast path - folded to the components
+    decided = 0
+    for text, want in ISO_TABLE:
+        for idx, (name, attr) in enumerate(ISO_ORDER):
+            m, f = model.registered(name)
+            try:
+                outs = _runs(model, name, lambda: [Const(text)], opaque)
+            except Unmodelled as e:
+                res.ob('R1', name, {'text': text}, True, 'undecided: %s' % e)
+                continue
+            # ISO 8601 text is within what the reference parser reads: its refusal is not a world to consider
+            outs = [o for o in outs if not any(t.startswith('dateutil parses') and alt is False for (t, alt, s_) in o.notes)]
+            if len(outs) != 1 or outs[0].imprecise or outs[0].kind != 'return':
+                res.ob('R1', name, {'text': text}, True, 'undecided: %d outcomes' % len(outs))
+                continue
+            v = outs[0].value
+            if isinstance(v, Atom) and v.op == attr and isinstance(v.args[0], Atom) and v.args[0].op == 'to_date' and \
+                    isinstance(v.args[0].args[0], Const) and v.args[0].args[0].value == text:
+                decided += 1
+                res.ob('R1', name, {'text': text, 'by': 'the reference text parser'}, True)
+                continue
+            if isinstance(v, Const) and isinstance(v.value, int) and not isinstance(v.value, bool):
+                decided += 1
+                ok = v.value == want[idx]
+                res.ob('R1', name, {'text': text, 'folded': v.value}, ok)
+                if not ok:
+                    res.violation('R1', 'function:%s:iso-text' % name, m.where(f),
+                                  '%s(%r) is folded to %r by a hand-written text path; the %s written in that ISO 8601 text is %d'
+                                  % (name, text, v.value, attr, want[idx]), func=f.name)
+                continue
+            if isinstance(v, Err):
+                decided += 1
+                res.ob('R1', name, {'text': text, 'result': repr(v)}, False)
+                res.violation('R1', 'function:%s:iso-text' % name, m.where(f),
+                              '%s(%r) gives %r; the %s written in that ISO 8601 text is %d' % (name, text, v, attr, want[idx]), func=f.name)
+                continue
+            res.ob('R1', name, {'text': text}, True, 'undecided: %r' % (v,))
+    res.soft_floor('ISO text x accessor cases decided', decided, 30)
 
 
 def _constructors(model, res, opaque):
